@@ -217,7 +217,8 @@ spec("ring",
      fw=dict([((0, 4), ["ssh"]), ((4, 0), [])]
              + [((a, b), ["ssh"]) for a, b in [(1, 2), (2, 3), (3, 4), (4, 5), (5, 6), (6, 1)]]
              + [((b, a), ["ssh"]) for a, b in [(1, 2), (2, 3), (3, 4), (4, 5), (5, 6), (6, 1)]]),
-     sens={(1, 0): 10, (6, 0): 2.1, (2, 0): 0.1})
+     # 2.1 + 0.1: the float32 sum (2.1999998) is below the sum of the numbers
+     sens={(1, 0): 2.1, (2, 0): 0.1})
 
 # --- 68 hosts (tensor rows beyond 64, more than 1000 cells), two gateways at opposite ends of the row order;
 #     recorded goal-seeking sweeps only
@@ -225,7 +226,10 @@ spec("big68",
      subnets=[33, 33, 2], topology=topo(4, [(0, 1), (0, 3), (1, 2), (2, 3)]),
      os=["linux"], services=["ssh"], processes=["tomcat"],
      hosts=dict([((1, i), H("linux", ["ssh"], ["tomcat"] if i % 4 == 0 else [])) for i in range(33)]
-                + [((2, i), H("linux", ["ssh"], ["tomcat"] if i % 4 == 1 else [])) for i in range(33)]
+                # the hosts of the middle subnet refuse one or the other of the two hosts of subnet 3 (rows 66, 67)
+                + [((2, i), H("linux", ["ssh"], ["tomcat"] if i % 4 == 1 else [],
+                              deny=({(3, 0): ["ssh"]} if i % 3 == 0 else {(3, 1): ["ssh"]} if i % 3 == 1 else {})))
+                   for i in range(33)]
                 + [((3, i), H("linux", ["ssh"], ["tomcat"])) for i in range(2)]),
      exploits={"e_ssh": E("ssh", "linux", 0.9, 1, U)},
      privescs={"pe_tomcat": P("tomcat", None, 1.0, 1, R)},
@@ -428,48 +432,54 @@ def decoys_of(cs):
     return out
 
 
-def run_numbers_decoy(scn, steps=40):
-    """Decoy D: the scenario under test itself - same name, same names, layout, hosts and wiring - with other NUMBERS
-    (scan costs, exploit / escalation costs, probabilities and access levels, host and sensitive values, step limit;
-    every firewall rule opened), built and stepped in both action modes before any environment of the scenario under
-    test exists.  A process-global cache keyed by name / layout / definitions' names that ignores the numbers then
-    shows up in the scenario under test."""
+def run_numbers_decoy(scn, steps=25):
+    """Decoys D: the scenario under test itself - same name, same names, layout, hosts and wiring - with other NUMBERS,
+    one group at a time (only the scan costs / only the exploit and escalation costs, probabilities and access levels /
+    only the host and sensitive values and the step limit / only the firewall rules, all opened) and finally all of
+    them, each built and stepped in both action modes before any environment of the scenario under test exists.  A
+    process-global cache whose key leaves one of these groups out then shows up in the scenario under test."""
     import copy
     import random
     from nasim.envs import NASimEnv
     from nasim.scenarios import Scenario
-    try:
-        d = copy.deepcopy(scn.scenario_dict)
-        for k in ("service_scan_cost", "os_scan_cost", "subnet_scan_cost", "process_scan_cost"):
-            if k in d:
-                d[k] = float(d[k]) * 3 + 0.5
-        for sect in ("exploits", "privilege_escalation"):
-            for e in d.get(sect, {}).values():
-                e["cost"] = float(e["cost"]) * 2 + 1
-                e["prob"] = 0.25 if float(e["prob"]) > 0.5 else 0.75
-                e["access"] = 3 - int(e["access"])
-        d["sensitive_hosts"] = {a: float(v) * 2 + 3 for a, v in d["sensitive_hosts"].items()}
-        for a, h in d["host"].items():
-            h.value = d["sensitive_hosts"].get(a, float(h.value) + 1)
-            h.discovery_value = float(h.discovery_value) + 2
-            h.firewall = {}
-        d["firewall"] = {pair: list(d["services"]) for pair in d["firewall"]}
-        d["step_limit"] = 7
-        decoy = Scenario(d, name=scn.name, generated=getattr(scn, "generated", False))
-        rng = random.Random(11)
-        for fa in (True, False):
-            env = NASimEnv(decoy, fully_obs=not fa, flat_actions=fa, flat_obs=fa)
-            env.reset()
-            for _ in range(steps):
-                env.step(env.action_space.sample() if not fa else rng.randrange(env.action_space.n))
-            if fa:
-                env.get_action_mask()
-            env.get_score_upper_bound()
-            env.get_minimum_hops()
-            del env
-    except Exception:      # a decoy is only there to leave process-global traces behind
-        if os.environ.get("VERIF_DEBUG_DECOY"):
-            raise
+    for groups in (("scan",), ("defs",), ("values",), ("fw",), ("scan", "defs", "values", "fw")):
+        try:
+            d = copy.deepcopy(scn.scenario_dict)
+            if "scan" in groups:
+                for k in ("service_scan_cost", "os_scan_cost", "subnet_scan_cost", "process_scan_cost"):
+                    if k in d:
+                        d[k] = float(d[k]) * 3 + 0.5
+            if "defs" in groups:
+                for sect in ("exploits", "privilege_escalation"):
+                    for e in d.get(sect, {}).values():
+                        e["cost"] = float(e["cost"]) * 2 + 1
+                        e["prob"] = 0.25 if float(e["prob"]) > 0.5 else 0.75
+                        e["access"] = 3 - int(e["access"])
+            if "values" in groups:
+                d["sensitive_hosts"] = {a: float(v) * 2 + 3 for a, v in d["sensitive_hosts"].items()}
+                for a, h in d["host"].items():
+                    h.value = d["sensitive_hosts"].get(a, float(h.value) + 1)
+                    h.discovery_value = float(h.discovery_value) + 2
+                d["step_limit"] = 7
+            if "fw" in groups:
+                for a, h in d["host"].items():
+                    h.firewall = {}
+                d["firewall"] = {pair: list(d["services"]) for pair in d["firewall"]}
+            decoy = Scenario(d, name=scn.name, generated=getattr(scn, "generated", False))
+            rng = random.Random(11)
+            for fa in (True, False):
+                env = NASimEnv(decoy, fully_obs=not fa, flat_actions=fa, flat_obs=fa)
+                env.reset()
+                for _ in range(steps):
+                    env.step(env.action_space.sample() if not fa else rng.randrange(env.action_space.n))
+                if fa:
+                    env.get_action_mask()
+                env.get_score_upper_bound()
+                env.get_minimum_hops()
+                del env
+        except Exception:      # a decoy is only there to leave process-global traces behind
+            if os.environ.get("VERIF_DEBUG_DECOY"):
+                raise
 
 
 def run_decoys(cs, steps=8):
